@@ -307,7 +307,7 @@ Fixpoint qsize (q : query) : nat :=
   match q with
   | QTerm _ _ _ => 6
   | QNot _ a => qsize a + 12
-  | QAnd _ a b | QOr _ a b | QJux a b => qsize a + qsize b + 12
+  | QAnd _ a b | QOr _ a b | QJux a b => Nat.max (qsize a) (qsize b) + 12
   end.
 
 Definition toks (l : list stok) : list tok := map fst l.
@@ -413,3 +413,273 @@ Proof.
 Qed.
 
 End Abstract.
+
+(* ================= part 2: the lexer over one-token arguments is such a stream ================= *)
+
+Definition tok_ok (t : tok) : Prop :=
+  match t with
+  | TLParen | TRParen | TNot | TAnd | TOr | TPayee | TCode | TNote => True
+  | TTerm w => word_ok w = true
+  | _ => False
+  end.
+
+Lemma plainb_facts c : plainb c = true ->
+  is_quote c = false /\ is_ws c = false /\ is_delim c = false /\
+  (c =? 0) = false /\ (c =? 41) = false /\ (c =? 92) = false.
+Proof.
+  unfold plainb. rewrite !andb_true_iff, !negb_true_iff. tauto.
+Qed.
+
+Lemma is_delim_false c : is_delim c = false ->
+  (c =? 40) = false /\ (c =? 38) = false /\ (c =? 124) = false /\ (c =? 33) = false /\
+  (c =? 64) = false /\ (c =? 35) = false /\ (c =? 37) = false /\ (c =? 61) = false.
+Proof. unfold is_delim. rewrite !orb_false_iff. tauto. Qed.
+
+Lemma ident_loop_plain ws cn acc w :
+  forallb plainb w = true -> ident_loop ws false cn acc w = (acc ++ w, [], true).
+Proof.
+  revert acc. induction w as [|c w IH]; intros acc H; cbn [ident_loop forallb] in *.
+  - rewrite app_nil_r. reflexivity.
+  - apply andb_true_iff in H as [Hc Hw].
+    destruct (plainb_facts c Hc) as (_ & Hws & Hd & _ & H41 & _).
+    rewrite Hws, H41, Hd. rewrite IH by exact Hw. rewrite <- app_assoc. reflexivity.
+Qed.
+
+Lemma classify_word st w : is_kw w = false -> classify st w = (TTerm w, st).
+Proof.
+  unfold is_kw. rewrite !orb_false_iff.
+  intros ((((((((((((((((H1 & H2) & H3) & H4) & H5) & H6) & H7) & H8) & H9) & H10) & H11) & H12) & H13) & H14) & H15) & H16) & H17).
+  unfold classify.
+  rewrite H1, H2, H3, H4, H5, H6, H7, H8, H9, H10, H11, H12, H13, H14, H15, H16, H17. reflexivity.
+Qed.
+
+Definition done_st (st : lexst) : lexst :=
+  mkL (l_args st) [] false false false (l_multi st) (l_cache st).
+
+Lemma lex_spell ctx st t sp :
+  is_expr_ctx ctx = false -> l_cws st = false -> l_cna st = false -> tok_ok t ->
+  lex_cur ctx st (spell (t, sp)) true = Some (Ok (t, done_st st)).
+Proof.
+  intros Hctx Hcws Hcna Hok.
+  destruct st as [args cur pos0 cws cna multi cache]. cbn [l_cws l_cna] in *. subst cws cna.
+  unfold done_st. cbn [l_args l_multi l_cache].
+  destruct t; cbn [tok_ok] in Hok; try contradiction.
+  - (* ( *) cbn. rewrite Hctx, andb_false_r. reflexivity.
+  - (* ) *) cbn. rewrite Hctx, andb_false_r. reflexivity.
+  - destruct sp; cbn; rewrite andb_false_r; reflexivity.
+  - destruct sp; cbn; rewrite andb_false_r; reflexivity.
+  - destruct sp; cbn; rewrite andb_false_r; reflexivity.
+  - destruct sp; cbn; rewrite andb_false_r; reflexivity.
+  - destruct sp; cbn; rewrite andb_false_r; reflexivity.
+  - destruct sp; cbn; rewrite andb_false_r; reflexivity.
+  - (* a bare pattern *)
+    cbn [spell]. unfold word_ok in Hok. destruct s as [|c w]; [discriminate|].
+    apply andb_true_iff in Hok as [Hpl Hkw]. apply negb_true_iff in Hkw.
+    pose proof Hpl as Hpl'. cbn [forallb] in Hpl'. apply andb_true_iff in Hpl' as [Hc Hw].
+    destruct (plainb_facts c Hc) as (Hq & Hws & Hd & H0 & H41 & H92).
+    destruct (is_delim_false c Hd) as (D1 & D2 & D3 & D4 & D5 & D6 & D7 & D8).
+    cbn [lex_cur l_multi l_cna l_cws].
+    rewrite Hq, andb_false_r, H0, Hws, D1, H41, D2, D3, D4, D5, D6, D7, D8, H92.
+    rewrite Hctx. rewrite (ident_loop_plain _ false [] (c :: w) Hpl). cbn [app].
+    rewrite classify_word by exact Hkw. reflexivity.
+Qed.
+
+(* the arguments still to be read *)
+Inductive ready : lexst -> list str -> Prop :=
+| ready_first a r multi cache :
+    ready (mkL (a :: r) a true false false multi cache) (a :: r)
+| ready_next x r pos multi cache :
+    ready (mkL (x :: r) [] pos false false multi cache) r
+| ready_end pos multi cache :
+    ready (mkL [] [] pos false false multi cache) [].
+
+Definition spells (a : str) (t : tok) : Prop := tok_ok t /\ exists sp, a = spell (t, sp).
+
+Lemma spell_nonempty t sp : tok_ok t -> spell (t, sp) <> [].
+Proof.
+  intros H. destruct t as [| | | | | | | | | | | | | | | | | | |w|]; cbn [tok_ok] in H; try contradiction;
+    cbn [spell]; try (destruct sp; cbv; congruence); try (cbv; congruence).
+  unfold word_ok in H. destruct w; congruence.
+Qed.
+
+Local Opaque spell.
+
+Lemma next_token_cur ctx st :
+  l_cache st = TUnknown -> l_cur st <> [] ->
+  next_token ctx st = match lex_cur ctx st (l_cur st) (l_pos0 st) with
+                      | Some r => r
+                      | None => next_adv ctx st (l_args st)
+                      end.
+Proof. unfold next_token. intros -> H. destruct (l_cur st); [congruence | reflexivity]. Qed.
+
+Lemma next_token_adv ctx st x a r :
+  l_cache st = TUnknown -> l_cur st = [] -> l_args st = x :: a :: r -> a <> [] ->
+  next_token ctx st = match lex_cur ctx (set_arg st (a :: r) a) a true with
+                      | Some r' => r'
+                      | None => next_adv ctx st (a :: r)
+                      end.
+Proof.
+  unfold next_token. intros -> -> -> H. cbn [next_adv]. destruct a; [congruence | reflexivity].
+Qed.
+
+Lemma next_ready ctx st a r t :
+  is_expr_ctx ctx = false -> l_cache st = TUnknown -> ready st (a :: r) -> spells a t ->
+  exists st', next_token ctx st = Ok (t, st') /\ l_cache st' = TUnknown /\ ready st' r.
+Proof.
+  intros Hctx Hcache Hr (Hok & sp & ->).
+  pose proof (spell_nonempty t sp Hok) as Hne.
+  inversion Hr; subst; cbn [l_cache] in Hcache; subst.
+  - (* still at the first argument *)
+    rewrite next_token_cur by (cbn; auto). cbn [l_cur l_pos0].
+    rewrite lex_spell by (auto; reflexivity).
+    eexists. split; [reflexivity|]. unfold done_st. cbn. split; [reflexivity|]. constructor.
+  - rewrite (next_token_adv ctx _ x (spell (t, sp)) r) by (cbn; auto).
+    rewrite lex_spell by (auto; reflexivity).
+    eexists. split; [reflexivity|]. unfold done_st. cbn. split; [reflexivity|]. constructor.
+Qed.
+
+Lemma next_ready_end ctx st :
+  l_cache st = TUnknown -> ready st [] ->
+  exists st', next_token ctx st = Ok (TEnd, st') /\ l_cache st' = TUnknown /\ ready st' [].
+Proof.
+  intros Hcache Hr. inversion Hr; subst; cbn [l_cache] in Hcache; subst.
+  - unfold next_token. cbn. eexists. split; [reflexivity|]. split; [reflexivity|]. constructor.
+  - unfold next_token. cbn. eexists. split; [reflexivity|]. split; [reflexivity|]. constructor.
+Qed.
+
+Inductive stream : lexst -> list tok -> Prop :=
+| st_plain st args ts :
+    l_cache st = TUnknown -> ready st args -> Forall2 spells args ts -> stream st ts
+| st_end st :
+    l_cache st = TEnd -> ready (set_cache st TUnknown) [] -> stream st []
+| st_push st t args ts :
+    l_cache st = t -> tok_ok t -> ready (set_cache st TUnknown) args -> Forall2 spells args ts ->
+    stream st (t :: ts).
+
+Lemma set_cache_id st : set_cache st (l_cache st) = st.
+Proof. destruct st; reflexivity. Qed.
+
+Lemma set_cache_set st a b : set_cache (set_cache st a) b = set_cache st b.
+Proof. destruct st; reflexivity. Qed.
+
+Lemma stream_next : forall ctx st ts,
+  is_expr_ctx ctx = false -> stream st ts ->
+  exists st', next_token ctx st = Ok (hd TEnd ts, st') /\ stream st' (tl ts) /\
+              stream (push_token (hd TEnd ts) st') ts.
+Proof.
+  intros ctx st ts Hctx Hs. inversion Hs; subst.
+  - (* nothing cached *)
+    destruct H1 as [|a t args' ts' Hsp HF].
+    + destruct (next_ready_end ctx st H H0) as (st' & Hn & Hc & Hr).
+      exists st'. cbn [hd tl]. split; [exact Hn|]. split.
+      * eapply st_plain; eauto.
+      * apply st_end; [destruct st'; reflexivity|].
+        unfold push_token. rewrite set_cache_set. rewrite <- Hc, set_cache_id. exact Hr.
+    + destruct (next_ready ctx st a args' t Hctx H H0 Hsp) as (st' & Hn & Hc & Hr).
+      exists st'. cbn [hd tl]. split; [exact Hn|]. split.
+      * eapply st_plain; eauto.
+      * eapply st_push; [destruct st'; reflexivity | exact (proj1 Hsp) | | exact HF].
+        unfold push_token. rewrite set_cache_set. rewrite <- Hc, set_cache_id. exact Hr.
+  - (* END_REACHED cached *)
+    exists (set_cache st TUnknown). cbn [hd tl]. split.
+    + unfold next_token. rewrite H. reflexivity.
+    + split.
+      * eapply st_plain; [destruct st; reflexivity | exact H0 | constructor].
+      * unfold push_token. rewrite set_cache_set. rewrite <- H, set_cache_id. exact Hs.
+  - (* a pushed-back token *)
+    exists (set_cache st TUnknown). cbn [hd tl]. split.
+    + unfold next_token. destruct (l_cache st); cbn [tok_ok] in H0; try contradiction; reflexivity.
+    + split.
+      * eapply st_plain; [destruct st; reflexivity | exact H1 | exact H2].
+      * unfold push_token. rewrite set_cache_set, set_cache_id. exact Hs.
+Qed.
+
+Lemma stream_peek_end ctx st :
+  is_expr_ctx ctx = false -> stream st [] -> exists st', peek_token ctx st = Ok (TEnd, st').
+Proof.
+  intros Hctx Hs. unfold peek_token.
+  destruct (stream_next ctx st [] Hctx Hs) as (st' & Hn & _ & _). cbn [hd] in Hn.
+  inversion Hs; subst.
+  - rewrite H, Hn. eexists. reflexivity.
+  - rewrite H. eexists. reflexivity.
+Qed.
+
+(* ================= part 3: the parse theorem ================= *)
+
+Lemma toks_ok lvl q : query_ok q = true -> Forall (fun t => tok_ok (fst t)) (tr lvl q).
+Proof.
+  revert lvl. induction q as [f sp p|sp a IHa|sp a IHa b IHb|sp a IHa b IHb|a IHa b IHb];
+    intros lvl H; cbn [query_ok] in H.
+  - destruct f; cbn [tr sel]; repeat constructor; cbn; exact H.
+  - cbn [tr]. unfold wrap. destruct (3 <? lvl)%nat.
+    + constructor; [exact I|]. apply Forall_app. split; [|repeat constructor].
+      constructor; [exact I | apply IHa; exact H].
+    + constructor; [exact I | apply IHa; exact H].
+  - apply andb_true_iff in H as [Ha Hb]. cbn [tr]. unfold wrap.
+    assert (G : Forall (fun t => tok_ok (fst t)) (tr 2 a ++ (TAnd, sp) :: tr 3 b)).
+    { apply Forall_app. split; [apply IHa; exact Ha|]. constructor; [exact I | apply IHb; exact Hb]. }
+    destruct (2 <? lvl)%nat; [|exact G].
+    constructor; [exact I|]. apply Forall_app. split; [exact G | repeat constructor].
+  - apply andb_true_iff in H as [Ha Hb]. cbn [tr]. unfold wrap.
+    assert (G : Forall (fun t => tok_ok (fst t)) (tr 1 a ++ (TOr, sp) :: tr 2 b)).
+    { apply Forall_app. split; [apply IHa; exact Ha|]. constructor; [exact I | apply IHb; exact Hb]. }
+    destruct (1 <? lvl)%nat; [|exact G].
+    constructor; [exact I|]. apply Forall_app. split; [exact G | repeat constructor].
+  - apply andb_true_iff in H as [Ha Hb]. cbn [tr]. unfold wrap.
+    assert (G : Forall (fun t => tok_ok (fst t)) (tr 0 a ++ tr 1 b)).
+    { apply Forall_app. split; [apply IHa; exact Ha | apply IHb; exact Hb]. }
+    destruct (0 <? lvl)%nat; [|exact G].
+    constructor; [exact I|]. apply Forall_app. split; [exact G | repeat constructor].
+Qed.
+
+Lemma spells_map l :
+  Forall (fun t => tok_ok (fst t)) l -> Forall2 spells (map spell l) (toks l).
+Proof.
+  induction 1 as [|[t sp] l Ht _ IH]; cbn [map toks fst]; constructor; [|exact IH].
+  split; [exact Ht | exists sp; reflexivity].
+Qed.
+
+Lemma tr_nonempty lvl q : tr lvl q <> [].
+Proof.
+  pose proof (tr_first lvl q) as (Hne & _). intros E. apply Hne. rewrite E. reflexivity.
+Qed.
+
+Lemma qsize_le_len lvl q : (qsize q <= 12 * length (tr lvl q))%nat.
+Proof.
+  revert lvl. induction q as [f sp p|sp a IHa|sp a IHa b IHb|sp a IHa b IHb|a IHa b IHb]; intros lvl.
+  - destruct f; cbn; lia.
+  - cbn [tr qsize]. specialize (IHa 4%nat). unfold wrap.
+    destruct (3 <? lvl)%nat; cbn [length]; try rewrite app_length; cbn [length]; lia.
+  - cbn [tr qsize]. specialize (IHa 2%nat). specialize (IHb 3%nat). unfold wrap.
+    destruct (2 <? lvl)%nat; cbn [length]; repeat rewrite app_length; cbn [length]; lia.
+  - cbn [tr qsize]. specialize (IHa 1%nat). specialize (IHb 2%nat). unfold wrap.
+    destruct (1 <? lvl)%nat; cbn [length]; repeat rewrite app_length; cbn [length]; lia.
+  - cbn [tr qsize]. specialize (IHa 0%nat). specialize (IHb 1%nat). unfold wrap.
+    pose proof (tr_nonempty 0 a) as Ha. pose proof (tr_nonempty 1 b) as Hb.
+    destruct (tr 0 a) as [|xa la]; [congruence|]. destruct (tr 1 b) as [|xb lb]; [congruence|].
+    destruct (0 <? lvl)%nat; cbn [length] in *; repeat rewrite app_length; cbn [length]; lia.
+Qed.
+
+Lemma total_len_ge (l : list stok) : (12 * length l + 14 <= total_len (map spell l))%nat.
+Proof.
+  unfold total_len. induction l as [|x l IH]; cbn [map fold_right length]; lia.
+Qed.
+
+(* parse (render q) = the intended expression, in either lexing mode *)
+Lemma query_parse_lemma ext multi q :
+  query_ok q = true -> parse ext multi (render q) = Ok (Some (to_expr q)).
+Proof.
+  intros Hok. unfold render, parse.
+  pose proof (tr_nonempty 0 q) as Hne.
+  destruct (map spell (tr 0 q)) as [|a0 r0] eqn:E.
+  { destruct (tr 0 q); [congruence | discriminate]. }
+  rewrite <- E.
+  assert (Hs : stream (init_lex multi (map spell (tr 0 q))) (toks (tr 0 q))).
+  { eapply st_plain; [reflexivity | | apply spells_map, toks_ok; exact Hok].
+    rewrite E. unfold init_lex. constructor. }
+  pose proof (qsize_le_len 0 q) as Hq. pose proof (total_len_ge (tr 0 q)) as Ht.
+  destruct (parse_stream ext stream stream_next q _ (total_len (map spell (tr 0 q)))
+              ltac:(lia) Hs) as (st' & Hp & Hs').
+  rewrite Hp.
+  destruct (stream_peek_end TAccount st' eq_refl Hs') as (st'' & Hk). rewrite Hk. reflexivity.
+Qed.
